@@ -104,3 +104,32 @@ Theorem C11_lagging_check_not_gone : forall st0 b l1 e o l2 hdr t,
   session_check (replay l1 st0) hdr t <> inr RNoSuch.
 Proof. exact lagging_check_not_gone. Qed.
 Print Assumptions C11_lagging_check_not_gone.
+
+(* status codes (D22, c0e28c0): "Session not yet seen" is never answered with 404 — the status on
+   which the bridge gives a session up — on any route, in any state *)
+Theorem C11_notyet_status : forall rt st q c,
+  dispatch_public rt st q = Refused RNotYet c -> c = 500%N.
+Proof. exact notyet_status. Qed.
+Print Assumptions C11_notyet_status.
+
+(* the id of an entry still ahead of the applied prefix is exactly "not yet seen" ... *)
+Theorem C11_lagging_view_not_yet : forall st0 b l1 e o l2,
+  (st_lastproc st0 <= b)%N -> keys_below b st0 -> ids_increase b (l1 ++ (e, o) :: l2) ->
+  get_session (replay l1 st0) (e_id e) = GsNotYet.
+Proof. exact lagging_view_not_yet. Qed.
+Print Assumptions C11_lagging_view_not_yet.
+
+(* ... so every gated session route (GET messages, POST message, DELETE), on a node answering from
+   a replay of any strict prefix of the log, answers a request for that id (with any non-empty
+   X-Session-Auth) with 500 or proxies it to the leader: never 404 (also cited by C17) *)
+Theorem C11_lagging_never_404 : forall rt st0 b l1 e o l2 q h,
+  forallb gated rt = true ->
+  (st_lastproc st0 <= b)%N -> keys_below b st0 -> ids_increase b (l1 ++ (e, o) :: l2) ->
+  q_hdr q = Some h -> h <> "" ->
+  forall r sid,
+  find_route (fun _ => true) Pub (q_meth q) (sdrop (String.length public_prefix) (q_path q)) rt = Some (r, Some sid) ->
+  parse_uint0 sid = Some (e_id e) ->
+  has_prefix public_prefix (q_path q) = true ->
+  dispatch_public rt (replay l1 st0) q = Refused RNotYet 500 \/ dispatch_public rt (replay l1 st0) q = Proxied.
+Proof. exact lagging_dispatch_never_404. Qed.
+Print Assumptions C11_lagging_never_404.
